@@ -248,7 +248,7 @@ def c37(ctx):
         states, trans = states + g.distinct, trans + g.generated
     nsched = len(json.load(open(tabs["GenKeepalive.cfg"])))
     vc = _vcomp(ctx)
-    variants = ["v4ping", "v4sub"] if ctx.quick else ["v4ping", "v5ping", "v4pub", "v4sub", "v4long0"]
+    variants = ["v4ping", "v4sub", "v4long0"] if ctx.quick else ["v4ping", "v5ping", "v4pub", "v4sub", "v4long0"]
 
     def play(variant, ids, tag):
         tr = ctx.path("traces", "ka_%s_%s.ndjson" % (variant, tag))
@@ -258,8 +258,11 @@ def c37(ctx):
         return v["verdicts"], recs, r
 
     exercised, runs, packets, samples, unexercised = set(), 0, 0, [], []
+    # the long keepalive-0 runs (tens of seconds of real time each, all in parallel) are started first and joined last
+    pool = ThreadPoolExecutor(max_workers=1)
+    long0 = pool.submit(play, "v4long0", [], "1")
     for variant in variants:
-        verdicts, recs, r = play(variant, [], "1")
+        verdicts, recs, r = long0.result() if variant == "v4long0" else play(variant, [], "1")
         states, trans = states + r.distinct, trans + r.generated
         runs += len(verdicts)
         again = []
